@@ -1290,6 +1290,11 @@ def c08(rep, tier):
         A.unknown('breakpoint()', '%d PotentialBreak emissions' % len(pb_emit))
     else:
         em = pb_emit[0]
+        cond_em = [show(c)[:70] + (' is %s' % str(lab).lower()) for c, lab, cn in g.guards_of(em) if isinstance(lab, bool)]
+        A.check(g.on_all_paths(em) and not cond_em, 'breakpoint(): the marker is emitted', 'a POTENTIAL_BREAK is emitted on every path through breakpoint()',
+                'the POTENTIAL_BREAK is emitted only when %s, but the site is recorded in the tables all the same: the recorded position is then the position of whatever instruction comes '
+                'next - arming the line overwrites that instruction' % (cond_em[0] if cond_em else 'some condition holds'), W(m, bp, em.e),
+                witness={'input': 'a PROGRAM whose END follows the END of a loop, and a breakpoint on the line of the second END'} if (cond_em or not g.on_all_paths(em)) else None)
 
         def position_ok(ev, e):
             """e denotes the index of the instruction emitted at `em`"""
@@ -2736,3 +2741,10 @@ def variable_view_rule(R, rep):
                     ok = True
     R.check(ok, 'getActivationVariables', 'for every (register, name) of the stack map: view[name] = data[data_start + register], unconditionally', why,
             'VM/src/vm.cpp:%d' % f['loc'][1])
+    # one entry per variable: the view is keyed by the exact name (a comparator that folds case merges the variables i and I)
+    from .genrules import lossy_key_orders
+    lko = lossy_key_orders(vf)
+    R.check(not lko, 'variable view: keys', 'no string-keyed container of the VM is ordered by a case-folding or partial comparator',
+            '%s %s is ordered by %s, which compares through %s: two variables whose names differ only in what it ignores share one entry - one of them is missing from the view and the '
+            'other may show its value' % (lko[0][0] if lko else '', lko[0][1] if lko else '', lko[0][2] if lko else '', '/'.join(lko[0][3]) if lko else ''), 'VM/include/vm.hpp',
+            witness={'input': 'i := 2; I := 40'} if lko else None)
